@@ -29,7 +29,10 @@ type labelSimplifier struct {
 	scope  map[string]bool
 }
 
-func (s *labelSimplifier) processDecls(decls []ast.Decl) {
+// fileLevel reports whether decls are the declarations of a file. There the
+// parser reads a leading "package" or "import" as the start of a package
+// clause or import declaration, so such labels must remain quoted.
+func (s *labelSimplifier) processDecls(decls []ast.Decl, fileLevel bool) {
 	sc := labelSimplifier{parent: s, scope: map[string]bool{}}
 	for _, d := range decls {
 		switch x := d.(type) {
@@ -52,6 +55,9 @@ func (s *labelSimplifier) processDecls(decls []ast.Decl) {
 		case *ast.Field:
 			if bl, ok := x.Label.(*ast.BasicLit); ok {
 				str, err := strconv.Unquote(bl.Value)
+				if fileLevel && (str == "package" || str == "import") {
+					continue
+				}
 				if err == nil && sc.scope[str] {
 					x.Label = ast.NewIdent(str)
 				}
@@ -64,11 +70,11 @@ func (s *labelSimplifier) markReferences(n ast.Node) bool {
 	// Record strings at this level.
 	switch x := n.(type) {
 	case *ast.File:
-		s.processDecls(x.Decls)
+		s.processDecls(x.Decls, true)
 		return false
 
 	case *ast.StructLit:
-		s.processDecls(x.Elts)
+		s.processDecls(x.Elts, false)
 		return false
 
 	case *ast.SelectorExpr:
